@@ -836,6 +836,68 @@ def _hoist_first_operand(tree: ast.Module) -> None:
             setattr(holder, field, new)
 
 
+class _InToOr(ast.NodeTransformer):
+    """x in (a, b) -> x == a or x == b;   x not in (a, b) -> x != a and x != b    (x a plain name, display of 2-3 elements)"""
+
+    def visit_Compare(self, node: ast.Compare):
+        self.generic_visit(node)
+        if len(node.ops) == 1 and isinstance(node.ops[0], (ast.In, ast.NotIn)) and isinstance(node.left, ast.Name) and isinstance(node.comparators[0], (ast.Tuple, ast.List)) \
+                and 2 <= len(node.comparators[0].elts) <= 3 and all(isinstance(e, (ast.Name, ast.Constant, ast.BinOp)) for e in node.comparators[0].elts):
+            import copy
+
+            pos = isinstance(node.ops[0], ast.In)
+            parts = [ast.Compare(left=copy.deepcopy(node.left), ops=[ast.Eq() if pos else ast.NotEq()], comparators=[e]) for e in node.comparators[0].elts]
+            return ast.BoolOp(op=ast.Or() if pos else ast.And(), values=parts)
+        return node
+
+
+class _OrToIn(ast.NodeTransformer):
+    """x == a or x == b -> x in (a, b)    (same plain name on the left of every equality, constants on the right)"""
+
+    def visit_BoolOp(self, node: ast.BoolOp):
+        self.generic_visit(node)
+        if isinstance(node.op, ast.Or) and len(node.values) >= 2 and all(isinstance(v, ast.Compare) and len(v.ops) == 1 and isinstance(v.ops[0], ast.Eq) and isinstance(v.left, ast.Name)
+                                                                         and isinstance(v.comparators[0], ast.Constant) for v in node.values) \
+                and len({v.left.id for v in node.values}) == 1 and len({type(v.comparators[0].value) for v in node.values}) == 1:
+            return ast.Compare(left=node.values[0].left, ops=[ast.In()], comparators=[ast.Tuple(elts=[v.comparators[0] for v in node.values], ctx=ast.Load())])
+        return node
+
+
+def _unpack_by_index(tree: ast.Module) -> None:
+    """a, b = name  ->  a = name[0]; b = name[1]     (two plain names unpacked from a plain name, inside functions)"""
+    for fn in ast.walk(tree):
+        if not isinstance(fn, ast.FunctionDef):
+            continue
+        for holder, field, lst in list(_stmt_lists_of(fn)):
+            new = []
+            for st in lst:
+                if isinstance(st, ast.Assign) and len(st.targets) == 1 and isinstance(st.targets[0], ast.Tuple) and len(st.targets[0].elts) == 2 and all(isinstance(e, ast.Name) for e in st.targets[0].elts) \
+                        and isinstance(st.value, ast.Name) and st.value.id not in {e.id for e in st.targets[0].elts}:
+                    for k, e in enumerate(st.targets[0].elts):
+                        new.append(ast.Assign(targets=[ast.Name(id=e.id, ctx=ast.Store())], value=ast.Subscript(value=ast.Name(id=st.value.id, ctx=ast.Load()), slice=ast.Constant(value=k), ctx=ast.Load()), lineno=st.lineno))
+                else:
+                    new.append(st)
+            setattr(holder, field, new)
+
+
+def _sorted_to_sort(tree: ast.Module) -> None:
+    """x = sorted(E)  ->  x = list(E); x.sort()     (no key / reverse, statement level)"""
+    for fn in ast.walk(tree):
+        if not isinstance(fn, ast.FunctionDef):
+            continue
+        for holder, field, lst in list(_stmt_lists_of(fn)):
+            new = []
+            for st in lst:
+                if isinstance(st, ast.Assign) and len(st.targets) == 1 and isinstance(st.targets[0], ast.Name) and isinstance(st.value, ast.Call) and isinstance(st.value.func, ast.Name) \
+                        and st.value.func.id == "sorted" and len(st.value.args) == 1 and not st.value.keywords:
+                    name = st.targets[0].id
+                    new.append(ast.Assign(targets=[ast.Name(id=name, ctx=ast.Store())], value=ast.Call(func=ast.Name(id="list", ctx=ast.Load()), args=[st.value.args[0]], keywords=[]), lineno=st.lineno))
+                    new.append(ast.Expr(value=ast.Call(func=ast.Attribute(value=ast.Name(id=name, ctx=ast.Load()), attr="sort", ctx=ast.Load()), args=[], keywords=[])))
+                else:
+                    new.append(st)
+            setattr(holder, field, new)
+
+
 def _transformer(cls):
     def apply(tree: ast.Module) -> None:
         new = cls().visit(tree)
@@ -882,6 +944,10 @@ def generic_equiv(files: List[str]) -> List[Variant]:
             ("loop-to-yield-from", _fix(_loop_to_yield_from), "for v in E: yield v -> yield from E"),
             ("any-to-loop", _fix(_any_to_loop), "return any(C for v in D) -> search loop with early return"),
             ("hoist-first-operand", _fix(_hoist_first_operand), "first operand of an and/or test bound to a local first"),
+            ("in-to-or", _transformer(_InToOr), "x in (a, b) -> x == a or x == b"),
+            ("or-to-in", _transformer(_OrToIn), "x == a or x == b -> x in (a, b)"),
+            ("unpack-by-index", _fix(_unpack_by_index), "a, b = t -> a = t[0]; b = t[1]"),
+            ("sorted-to-sort", _fix(_sorted_to_sort), "x = sorted(E) -> x = list(E); x.sort()"),
         ):
             out.append(Variant(f"equiv-{tag}-{short}", [(f, fn)], "nofire", note=note))
     return out
